@@ -35,7 +35,7 @@ fn key(s: &State) -> (u64, u64) {
 
 const POOL: [&str; 21] = ["bound()", "dump", "ignore", "key = $", "by = f", "Foo", "\"lit\"", "reverse", "transparent", "bound(..)", "Clone", "bound(T: , ..)", "Cálculo", "ÑuAssign", "Sub", "key = $!()", "key = $::f()", "key = $ { }", "key = match 1 { $ => 1 }", "key = Vec::<$>::new()", "key = { let $ = 1; 2 }"];
 /// syntactically valid types put in place of a field type, an impl's self type or the operator's Rhs argument
-const TYPE_POOL: [&str; 16] = ["dyn Tr + Send", "dyn Tr", "[u8]", "(u8, X)", "&'a mut T", "fn(u8) -> u8", "*const T", "<T as Tr>::A", "Self", "!", "[T; N]", "Option<Self>", "&dyn Tr", "Box<dyn Tr + Send>", "m!(T)", "(dyn Tr + Send)"];
+const TYPE_POOL: [&str; 19] = ["dyn Tr + Send", "dyn Tr", "[u8]", "(u8, X)", "&'a mut T", "fn(u8) -> u8", "*const T", "<T as Tr>::A", "Self", "!", "[T; N]", "Option<Self>", "&dyn Tr", "Box<dyn Tr + Send>", "m!(T)", "(dyn Tr + Send)", "dyn Tr + 'static", "dyn for<'x> Fx<'x> + 'a", "impl Tr + Send"];
 const HELPERS: [&str; 8] = ["derive_ex", "debug", "default", "ord", "partial_ord", "eq", "partial_eq", "hash"];
 
 /// delete / duplicate / swap-adjacent / replace / append on a comma separated argument list
